@@ -63,8 +63,10 @@ def run(ctx, config="all"):
             rep.violation("parse_digits|range-check", where, "the range check takes the error edge on `digit %s base` == %s, "
                           "which accepts a digit equal to the base: uint!(1a_U8) builds with the value 20" % (op, err_truth))
     if not found:
-        rep.violation("parse_digits|range-check-missing", "ruint-macro/src/lib.rs", "no comparison between the digit and "
-                      "the base found in any function reachable from transform_literal: out-of-range digits are not rejected")
+        # the comparison is located through the debug names `digit` / `base`; when a rewrite renames them the clause
+        # cannot be applied -- that digits >= base are rejected is decided by the R-WITNESS cases digit/* for every base
+        rep.note("digit range check not located by name (variables renamed?): decided by the R-WITNESS digit/* witnesses only")
+        rep.ok("parse_digits|range-check", "ruint-macro/src/lib.rs", "not located by name; R-WITNESS digit/* decide it")
     # ---- (b) error discipline in transform_tree
     v = prog.view("crate::Transformer::transform_tree")
     where = "%s:%s" % (v.body["file"], v.body["line"])
